@@ -91,6 +91,11 @@ func bstrClasses(okLens, badLens []int, optional bool, mk func(n int) []byte, se
 		n := n
 		out = append(out, wcls{fmt.Sprintf("bstr%d", n), func() *mcbor.Node { return mcbor.B(mk(n)) }, wBad, nil})
 	}
+	// an acceptable length plus 2^8, 2^13, 2^16 bytes: acceptable only to a length check done in a narrow integer
+	for _, w := range []int{1 << 8, 1 << 13, 1 << 16} {
+		n := okLens[0] + w
+		out = append(out, wcls{fmt.Sprintf("bstr%d", n), func() *mcbor.Node { return mcbor.B(mk(n)) }, wBad, nil})
+	}
 	n0 := okLens[0]
 	out = append(out,
 		wcls{"null", mcbor.Null, wBad, nil},
@@ -206,7 +211,7 @@ func compHashClasses(seed byte, set func(sc *refmodel.Comp, b []byte)) []compFie
 		out = append(out, compFieldCls{fmt.Sprintf("bstr%d", n), func() *mcbor.Node { return mcbor.B(mk(n)) }, wOK, func(sc *refmodel.Comp) { set(sc, mk(n)) }})
 	}
 	out = append(out, compFieldCls{"absent", nil, wBad, nil})
-	for _, n := range []int{0, 31, 33, 47, 49, 63, 65} {
+	for _, n := range []int{0, 31, 33, 47, 49, 63, 65, 32 + 256, 48 + 8192, 64 + 65536} {
 		n := n
 		out = append(out, compFieldCls{fmt.Sprintf("bstr%d", n), func() *mcbor.Node { return mcbor.B(mk(n)) }, wBad, nil})
 	}
@@ -558,7 +563,7 @@ func genWireToken(c *choice.Ctx, p int, variant int) *wireToken {
 		emit(k.vsi, "vsi", cls)
 	}
 	// extra keys and map-level shape
-	xk := c.Choose("extra-keys", 14)
+	xk := c.Choose("extra-keys", 17)
 	if xk != 0 {
 		t.devs = append(t.devs, fmt.Sprintf("extra-keys=%d", xk))
 	}
@@ -592,6 +597,20 @@ func genWireToken(c *choice.Ctx, p int, variant int) *wireToken {
 		n := map[int]int{11: 40, 12: 70, 13: 1030}[xk]
 		for i := 0; i < n; i++ {
 			t.tree.Put(mcbor.U(uint64(70000+i)), mcbor.U(uint64(i)))
+		}
+	case 14, 15, 16: // unknown keys congruent to a profile key modulo 2^32 / 2^64, holding a profile name
+		other := refmodel.P2Name
+		if p == 2 {
+			other = refmodel.P1Name
+		}
+		switch xk {
+		case 14:
+			t.tree.Put(mcbor.U(1<<32+265), mcbor.T(other))
+		case 15:
+			t.tree.Put(mcbor.U(1<<32+265), mcbor.T("http://unknown.example/p"))
+			t.tree.Put(mcbor.I(-75000-(1<<32)), mcbor.T(other))
+		case 16:
+			t.tree.Pairs = append([][2]*mcbor.Node{{mcbor.U(1<<32 + 265), mcbor.T(other)}, {mcbor.U(1<<64 - 75000), mcbor.T(other)}}, t.tree.Pairs...)
 		}
 	case 6: // a byte-string key is outside the claim-key space (integers / text): no verdict
 		t.tree.Put(mcbor.B([]byte{1}), mcbor.U(1))
@@ -635,14 +654,22 @@ func genWireToken(c *choice.Ctx, p int, variant int) *wireToken {
 	case 10, 11: // every integer key with a non-shortest head (4 / 8 argument bytes): the same keys
 		for i := range t.tree.Pairs {
 			if k := t.tree.Pairs[i][0]; k.K == mcbor.Uint || k.K == mcbor.Nint {
-				t.tree.Pairs[i][0] = k.W(map[int]int{10: 4, 11: 8}[ms])
+				w := map[int]int{10: 4, 11: 8}[ms]
+				if k.U >= 1<<32 {
+					w = 8 // a head narrower than the value would be another key
+				}
+				t.tree.Pairs[i][0] = k.W(w)
 			}
 		}
 	case 12, 13: // only the profile key (13: the first key) with a non-shortest head
 		for i := range t.tree.Pairs {
 			kk, _ := t.tree.Pairs[i][0].Int()
 			if (ms == 12 && kk == k.profile) || (ms == 13 && i == 0) {
-				t.tree.Pairs[i][0] = t.tree.Pairs[i][0].W(4)
+				w := 4
+				if t.tree.Pairs[i][0].U >= 1<<32 {
+					w = 8
+				}
+				t.tree.Pairs[i][0] = t.tree.Pairs[i][0].W(w)
 			}
 		}
 	case 9: // rotate by half
